@@ -2,6 +2,7 @@ import VaxisModel.Lemmas.VxfwErr
 import VaxisModel.Lemmas.VxfwHover
 import VaxisModel.Lemmas.VxfwHoverErr
 import VaxisModel.Lemmas.VxfwFocusErr
+import VaxisModel.Lemmas.VxfwOnceErr
 
 /-!
 # C15 — handlers that return an error
@@ -148,13 +149,11 @@ example :
     let r := eRun e 3 0 t [.ev (.mouse 1 1), .ev (.mouse 5 5)]
     r.2 = true ∧ (hoverRun [] r.1.trace).isSome = true ∧ r.1.lastHits.map Hit.w = [0, 1] := by decide
 
-/-! ### focus pairing (proved) and commands-once (stated) with failing handlers, and why the error-free forms are false -/
+/-! ### focus pairing and commands-once with failing handlers (both proved), and why the error-free forms are false -/
 
-/-- The effects owed by the calls that did NOT fail (the command returned together with an error is dropped at every call site). -/
-def owedE (e : EOracle) : Nat → List Entry → List Eff
-  | _, [] => []
-  | k, .call w ev ph :: r => (if e.fails w ev ph k then [] else nfEffs (e.o.h w ev ph k).flatten) ++ owedE e (k + 1) r
-  | k, _ :: r => owedE e k r
+/-- The effects owed by the calls that did NOT fail (the command returned together with an error is dropped at every call site):
+`owed` for the oracle `Lemmas.Vxfw.eo e` whose failing calls answer nil. -/
+def owedE (e : EOracle) : Nat → List Entry → List Eff := owed (eo e).h
 
 /-- **Focus pairing over whole histories with failing handlers — full statement** (proved: `focus_pairs_err`).  Apart from the FocusOut
 calls whose handler failed (`Lemmas.Vxfw.dropFailedOut`: a failing FocusOut handler cancels the focus change — the focus stays, no
@@ -164,8 +163,8 @@ def focus_pairs_err_full : Prop :=
   ∀ (e : EOracle) (fuel : Nat) (root : Id) (t0 : STree) (steps : List Step),
     focusRun root false (dropFailedOut e 0 (eRun e fuel root t0 steps).1.trace) = some (eRun e fuel root t0 steps).1.focused
 
-/-- **Commands-once over whole histories with failing handlers — full statement, not proved**: the command effects in the trace are a
-permutation of the effects asked for by the calls that did not fail (budget not exhausted). -/
+/-- **Commands-once over whole histories with failing handlers — full statement** (proved: `commands_once_err`): the command effects in
+the trace are a permutation of the effects asked for by the calls that did not fail (budget not exhausted). -/
 def commands_once_err_full : Prop :=
   ∀ (e : EOracle) (fuel : Nat) (root : Id) (t0 : STree) (steps : List Step),
     (eRun e fuel root t0 steps).1.stuck = false →
@@ -194,5 +193,13 @@ dropped — pair up (FocusOut to the widget focused then, FocusIn to the new one
 error-aware function. -/
 theorem focus_pairs_err : focus_pairs_err_full :=
   fun e fuel root t0 steps => focusPairs_eRun e fuel root t0 steps
+
+/-- **`commands_once_err`**: for EVERY set of failing calls and every history in which the nesting budget did not run out, every command
+returned by a handler call that did NOT fail takes effect exactly once, and nothing else does — the command returned together with an
+error is never executed (capture / target / bubble offers, hover notifications, FocusOut / FocusIn notifications inside `focusWidget`).
+`Lemmas/VxfwOnceErr.lean`: the relation `Bal` of `commands_once_history` for the oracle whose failing calls answer nil, through every
+error-aware function. -/
+theorem commands_once_err : commands_once_err_full :=
+  fun e fuel root t0 steps hs => commandsOnce_eRun e fuel root t0 steps hs
 
 end VaxisModel.Props.C15Err
